@@ -113,6 +113,7 @@ std::string g_file; // a 16 MB file for the file-transfer behaviours
 std::atomic<int> g_stale { 0 };
 std::atomic<int> g_more_ms { 30 };   // how long a fresh connection watches for bytes it did not ask for
 std::atomic<int> g_late_running { 0 };
+std::atomic<int> g_napping { 0 };    // a worker is inside the raw handler's nap
 
 // the worker transports seen by the handlers; their tables are read when every client is gone
 std::mutex g_tr_m;
@@ -149,7 +150,11 @@ public:
         g_log.add(peer->getID(), 'I');
         std::string cmd(buffer, len);
         if (cmd.rfind("nap", 0) == 0) // the worker is kept busy: what other connections send meanwhile is all there at its next look
+        {
+            ++g_napping;
             std::this_thread::sleep_for(std::chrono::milliseconds(150));
+            --g_napping;
+        }
         if (cmd.rfind("keep", 0) == 0)
         {
             // the handler keeps the peer (as code that pushes data to its clients does) and sends to it 150 ms later, when
@@ -371,12 +376,16 @@ void raw_client(char b, uint16_t port)
         break;
     case 'u':
         // data and close at once, while the worker is busy: both are there when it looks - one readiness event
-        std::this_thread::sleep_for(std::chrono::milliseconds(40));
+        for (int k = 0; k < 400 && g_napping.load() == 0; ++k)
+            std::this_thread::sleep_for(std::chrono::milliseconds(5));
+        std::this_thread::sleep_for(std::chrono::milliseconds(20));
         pv::send_all(fd, "mute");
         ::close(fd);
         break;
     case 'v':
-        std::this_thread::sleep_for(std::chrono::milliseconds(40));
+        for (int k = 0; k < 400 && g_napping.load() == 0; ++k)
+            std::this_thread::sleep_for(std::chrono::milliseconds(5));
+        std::this_thread::sleep_for(std::chrono::milliseconds(20));
         pv::send_all(fd, "mute");
         ::shutdown(fd, SHUT_WR);
         read_to_eof(fd, 1500);
